@@ -143,7 +143,7 @@ CLAIMS = {
     technique='TLA+ spec + TLC model checking (where a design-level model exists); TLC trace validation of recorded executions of real nodes'),
  "C02": dict(
     category="model_checking",
-    text='spec/Lookup.tla (the search as a timed state machine: sorted candidates, ALPHA/BETA picks, distance to beat, 1.5 s time-outs, end-game, late answers, announce) is checked by TLC over EVERY environment of a cooperative family (all starting sets, all answer delays 0/999 ms, hence all arrival orders) for safety, the closest-nodes announce property and termination under fairness; a variant whose end-game skips unqueried nodes must be caught. Binding: one real node searches cooperative oracle networks of 1..100 (thorough: 1000) scripted nodes that answer within one second with the truly closest nodes, tokens and stored peers. TLC follows every get_peers / response / yield / announce_peer of the recording: at the end of an announcing search the set of announce destinations must equal the 8 nodes of the declared universe closest to the info-hash (XOR order computed in TLA+), each announce carrying the token that very node sent, the searched hash, the own id and the configured / implied port; every peer of every consumed answer must have been delivered once per occurrence.',
+    text='spec/Lookup.tla (spec/LookupCore.tla -- the search mechanism as pure step operators: sorted candidates, ALPHA/BETA picks, distance to beat, end-game, late answers, announce -- plus 1.5 s time-outs and an environment) is checked by TLC over EVERY environment of a cooperative family (all starting sets, all answer delays 0/999 ms, hence all arrival orders) for safety, the closest-nodes announce property and termination under fairness; a variant whose end-game skips unqueried nodes must be caught. Binding: one real node searches cooperative oracle networks of 1..100 (thorough: 1000) scripted nodes that answer within one second with the truly closest nodes, tokens and stored peers. TLC follows every get_peers / response / yield / announce_peer of the recording: at the end of an announcing search the set of announce destinations must equal the 8 nodes of the declared universe closest to the info-hash (XOR order computed in TLA+), each announce carrying the token that very node sent, the searched hash, the own id and the configured / implied port; every peer of every consumed answer must have been delivered once per occurrence. The same LookupCore operators run alongside every recorded search and predict the destination of every get_peers and announce_peer, step by step (reported as drift, never as a violation).',
     design_ref='DESIGN.md §5 C02, §3.9',
     note='Universe placement: uniform / clustered around the target / around the searcher; serving and read-only searcher.',
     technique='TLA+ spec + TLC model checking (where a design-level model exists); TLC trace validation of recorded executions of real nodes'),
